@@ -377,7 +377,7 @@ def parse_stmt_or_term(line):
     k = _find_top(s, " = ")
     if k is None:
         # call without destination? e.g. 'exit(const 1_i32) -> unwind continue'
-        j = _find_top(s, " -> ")
+        j = _call_arrow(s)
         if j is not None and s[:j].endswith(")"):
             callee, args = parse_call(s[:j])
             return Term("call", {"dest": None, "callee": callee, "args": args, "targets": parse_targets(s[j + 4:])}, s)
@@ -386,7 +386,7 @@ def parse_stmt_or_term(line):
             return None
         raise ValueError("stmt? " + s)
     lhs, rhs = s[:k], s[k + 3:]
-    j = _find_top(rhs, " -> ")
+    j = _call_arrow(rhs)
     if j is not None and rhs[:j].endswith(")"):
         callee, args = parse_call(rhs[:j])
         return Term("call", {"dest": parse_place(lhs), "callee": callee, "args": args,
@@ -394,6 +394,17 @@ def parse_stmt_or_term(line):
     if lhs.startswith("discriminant("):
         return Stmt(parse_place(lhs[len("discriminant("):-1]), ("setdiscr", int(rhs)), s)
     return Stmt(parse_place(lhs), parse_rvalue(rhs), s)
+
+
+def _call_arrow(s):
+    """index of the ' -> ' that introduces a call terminator's targets ([return: ..] | unwind .. | bbN), if any"""
+    j = s.rfind(" -> ")
+    if j < 0:
+        return None
+    tail = s[j + 4:].lstrip()
+    if tail.startswith("[") or tail.startswith("unwind") or re.match(r"bb\d+$", tail):
+        return j
+    return None
 
 
 HDR = re.compile(r"^(fn|const|static) (.*)$")
